@@ -267,8 +267,12 @@ class Sim:
                 continue
             # an exchange that reached the server but ended in a memcached protocol error (not the client-side
             # 'all servers down', which is raised for some other key of a multi-key call)
-            neutral = (ok and exc is not None and not isinstance(exc, OSError)
-                       and not (type(exc).__name__ == "MemcacheError"))
+            # Decided from the server's own answer to the commands of that (sub-)call, because ignore_exc=True swallows
+            # the exception while the library keeps its failure record all the same.
+            errs = [c_ for c_ in self.servers[n].cmdlog[marks[n]:] if c_.tag == c and c_.reply
+                    and c_.reply.split(b" ")[0].rstrip(b"\r\n") in (b"ERROR", b"CLIENT_ERROR", b"SERVER_ERROR")]
+            neutral = ok and (bool(errs) or (exc is not None and not isinstance(exc, OSError)
+                                             and not (type(exc).__name__ == "MemcacheError")))
             self.contacts[n].append((t, None if neutral else ok, c))      # c: the (sub-)call that made the contact
             if neutral:
                 continue
@@ -321,16 +325,16 @@ class Sim:
                     # observed eviction: the contacts before this call must justify it
                     self.out.add(o)
                     self.stats["evictions"] += 1
-                    rel = [(ok, cno) for (t, ok, cno) in self.contacts[o] if ok is not None]
-                    hist = [ok for ok, cno in rel]
+                    allc = [ok for (t, ok, cno) in self.contacts[o]]
+                    if self.ra > 0 and allc:
+                        allc = allc[:-1]     # the evicting attempt's own contact, whatever its outcome (see below)
+                    hist = [ok for ok in allc if ok is not None]
                     # With retries configured the eviction is decided before the evicting attempt contacts the server, from
                     # what earlier attempts saw: the last contact (that attempt's own, failed or not) is not evidence.  With retry_attempts=0 the failing call itself evicts, so its contact counts.
                     # Exchanges that reached the server but ended in a memcached error are neither failures nor the kind
                     # of success after which the library forgets a failure (recorded as None and skipped).
                     tail = list(hist)
-                    if self.ra > 0 and tail:
-                        tail.pop()          # the evicting attempt's own contact (the library always tries once more after evicting)
-                    elif tail and tail[-1]:
+                    if self.ra == 0 and tail and tail[-1]:
                         tail.pop()
                     nf = 0
                     while tail and not tail[-1]:
